@@ -386,6 +386,17 @@ def run_property(prop, tier="quick", seed=0):
         except SyntaxError as ex:
             results.append(dict(qual="own:*", error="OUT-OF-SUBSET source does not parse: " + repr(ex)[:200], results=[], paths=0, fn=None, checker_error=False))
     spec = dict(spec, gen_wall_s=round(gen_wall, 1))
+    if tier == "thorough":
+        # CPython cross-check of the encoding (pyvc/xcheck.py): validates the generator, decides nothing about the property
+        try:
+            xr = subprocess.run([sys.executable, "-m", "pyvc.xcheck", "--n", "12", "--seed", str(seed)], capture_output=True, text=True, cwd=VERIF, timeout=1500, env=dict(os.environ))
+            xs = json.loads([ln for ln in xr.stdout.splitlines() if ln.startswith("{")][-1])
+            spec["cpython_crosscheck"] = xs
+            if xr.returncode != 0:
+                results.append(dict(qual="xcheck", error="CHECKER-ERROR the symbolic semantics exclude what CPython did: " + json.dumps(xs.get("disagreements"))[:600],
+                                    results=[], paths=0, fn=None, checker_error=True))
+        except Exception as ex:  # noqa
+            spec["cpython_crosscheck"] = {"error": repr(ex)[:200]}
     th.join()
     return assemble(prop, tier, seed, spec, quals, lem, results, t_start, early.get("r"))
 
@@ -492,6 +503,7 @@ def assemble(prop, tier, seed, spec, quals, lem, results, t_start, early_standin
                         "hyps_unknown": sum(1 for o in obs if o.get("hyps_sat") == "unknown")},
             "known_findings": sorted({o["known_finding"] for o in known}),
             "baseline_clauses": len(base_keys),
+            **({"cpython_crosscheck": spec["cpython_crosscheck"]} if spec.get("cpython_crosscheck") else {}),
             "not_discharged": [dict(name=o["name"], verdict=o["verdict"]) for o in failed if o not in known][:20],
             "trusted_contracts": trusted, "inlined_accessors": inl,
             "axioms": [f"{n}: {w}" for n, _, w in AXIOMS],
